@@ -1011,6 +1011,67 @@ func (c *Ctx) rebaseRule(reach []*core.FuncInfo) {
 				}
 			}
 		}
+		if !ok {
+			// the resolution and the rebasing may live together in the helper that hands out the schema:
+			// sch, err := resolveRemoteSchema(&entry.Ref, opts)
+			if g := c.P.Funcs[c.P.StaticCallee(fi, resolve)]; g != nil && g.Decl != nil && g.Decl.Body != nil {
+				ginfo := c.info(g)
+				var retObj types.Object
+				ast.Inspect(g.Decl.Body, func(nd ast.Node) bool {
+					if _, isLit := nd.(*ast.FuncLit); isLit {
+						return false
+					}
+					if ret, isRet := nd.(*ast.ReturnStmt); isRet && len(ret.Results) == 2 && core.IsNilExpr(ginfo, ret.Results[1]) {
+						retObj = core.ObjOf(ginfo, ret.Results[0])
+					}
+					return true
+				})
+				// the importing $ref: a parameter of type (*)spec.Ref, stringified directly or through a local
+				refParam := map[types.Object]bool{}
+				gsig := g.Obj.Type().(*types.Signature)
+				for i := 0; i < gsig.Params().Len(); i++ {
+					if core.IsSpecType(core.Deref(gsig.Params().At(i).Type()), "Ref") {
+						refParam[gsig.Params().At(i)] = true
+					}
+				}
+				// the argument handed in at the call site is the importing $ref (rooted at a parameter of fi)
+				fed := false
+				for _, a := range resolve.Args {
+					x := core.Unparen(a)
+					if u, isAddr := x.(*ast.UnaryExpr); isAddr && u.Op == token.AND {
+						x = core.Unparen(u.X)
+					}
+					if core.IsSpecType(core.Deref(info.TypeOf(x)), "Ref") {
+						if id := rootIdent(x); id != nil {
+							if o := core.ObjOf(info, id); o != nil && c.P.Locals(fi).Params[o] {
+								fed = true
+							}
+						}
+					}
+				}
+				if retObj != nil && fed && len(refParam) > 0 {
+					ok2, why2 := c.rebaseLoop(g, g.Decl.Body, retObj, func(e ast.Expr) bool {
+						e = core.Unparen(e)
+						if o := core.ObjOf(ginfo, e); o != nil {
+							if defs := c.P.Locals(g).Defs[o]; len(defs) == 1 && defs[0].Kind == core.DefAssign {
+								e = core.Unparen(defs[0].Expr)
+							}
+						}
+						if bc, isCall := e.(*ast.CallExpr); isCall {
+							if bs, isSel := core.Unparen(bc.Fun).(*ast.SelectorExpr); isSel && bs.Sel.Name == "String" && refParam[core.ObjOf(ginfo, bs.X)] {
+								return true
+							}
+						}
+						return false
+					}, g.Decl.Body.Pos(), g.Decl.Body.End())
+					if ok2 {
+						ok = true
+					} else {
+						why = why2 + " (in " + g.Name() + ")"
+					}
+				}
+			}
+		}
 		c.S.Decide(ok, "C01", "PIPE-REBASE", fi.QName(), c.P.Pos(save.Pos()),
 			"every $ref inside an imported schema is rebased relative to the importing $ref before the schema becomes a definition",
 			why+": relative $refs inside the imported schema would be resolved against the wrong document")
@@ -1361,8 +1422,57 @@ func (c *Ctx) isFirstOfTopmost(fi *core.FuncInfo, e ast.Expr) bool {
 	if !ok {
 		return false
 	}
-	cal := c.P.CalleeAny(fi, src)
-	return cal != nil && cal.Name() == "TopmostFirst"
+	return c.isTopmostCall(fi, src, 0)
+}
+
+// isTopmostCall: the call is sortref.TopmostFirst(…), or a module function every return of which hands out the
+// result of one (a `sortedParents()` helper).
+func (c *Ctx) isTopmostCall(fi *core.FuncInfo, call *ast.CallExpr, depth int) bool {
+	cal := c.P.CalleeAny(fi, call)
+	if cal == nil || depth > 2 {
+		return false
+	}
+	if cal.Name() == "TopmostFirst" {
+		return true
+	}
+	g := c.P.Funcs[cal]
+	if g == nil || g.Decl == nil || g.Decl.Body == nil {
+		return false
+	}
+	ginfo := c.info(g)
+	all, n := true, 0
+	ast.Inspect(g.Decl.Body, func(nd ast.Node) bool {
+		if _, isLit := nd.(*ast.FuncLit); isLit {
+			return false
+		}
+		ret, isRet := nd.(*ast.ReturnStmt)
+		if !isRet {
+			return true
+		}
+		n++
+		if len(ret.Results) != 1 {
+			all = false
+			return true
+		}
+		e := core.Unparen(ret.Results[0])
+		for i := 0; i < 3; i++ {
+			o := core.ObjOf(ginfo, e)
+			if o == nil {
+				break
+			}
+			defs := c.P.Locals(g).Defs[o]
+			if len(defs) != 1 || defs[0].Kind != core.DefAssign {
+				break
+			}
+			e = core.Unparen(defs[0].Expr)
+		}
+		inner, isCall := e.(*ast.CallExpr)
+		if !isCall || !c.isTopmostCall(g, inner, depth+1) {
+			all = false
+		}
+		return true
+	})
+	return all && n > 0
 }
 
 // raisesRerunFlag: next to the write (same block), a returned bool flag is raised when path.Dir(<ref>) is not
